@@ -80,7 +80,8 @@ def main(tier=None):
     c.run_suite(Suite("hostile-streams-with-witness", "broker", ops, mon, {"cases": cases, "nontrivial": cases}, resets=("reset",), retry_args=["200"]), timeout=3000)
     samples.append({"suite": "hostile-streams-with-witness", "ops": [o[:100] for o in ops[4:12]]})
     from checks import brokerlib
-    scs = [brokerlib.gen_abandoned_exchanges(c.rng) for _ in range(3 if c.tier == "quick" else 40)]
+    scs = brokerlib.corpus(c.rng, ["ids-return-after-recipient-vanished"])
+    scs += [brokerlib.gen_abandoned_exchanges(c.rng) for _ in range(3 if c.tier == "quick" else 40)]
     brokerlib.run_scenarios(c, "abandoned-exchanges-with-witness", scs, samples)
     c.assumptions += ["the MQTT decoder (module cache) is modelled, not verified", "memory exhaustion and a client that stops READING (writer blocked until its deadline) are outside the model: partial for 'stall'"]
     return c.finish(samples=samples,
